@@ -258,6 +258,15 @@ func (d *drv) objects(t int, nft bool, mode string) {
 							rev = append(rev, g[j])
 						}
 						d.group(dir, sel, rev)
+						// same first policy and length, another last policy; same members, tail in another order
+						other := append([]types.PolicyID{}, g...)
+						other[k-1] = pols[(i+k+1+d.rnd.Intn(5))%len(pols)]
+						d.group(dir, sel, other)
+						if k > 2 {
+							sw := append([]types.PolicyID{}, g...)
+							sw[1], sw[2] = sw[2], sw[1]
+							d.group(dir, sel, sw)
+						}
 					}
 				}
 			}
